@@ -3,7 +3,7 @@
 # usage: MUT_SLOT=n tools/run_benign.sh /tmp/mut-K/out > log
 DIR=$1
 export MUT_FROM_HEAD=1
-for d in $(ls -d $DIR/B-* | sort -V); do
+for d in $(ls -d $DIR/${BENIGN_GLOB:-B*} | sort -V); do
   id=$(basename $d)
   out=$(/verif/tools/run_on_mutant.sh $d/patch.diff C01 C02 C03 C04 C05 C06 C07 C08 C09 C10 C11 C12 C13 C14 C15 C16 C17 C18 C19 C20 2>&1)
   alarms=$(echo "$out" | grep -c "^VIOLATION")
